@@ -19,13 +19,16 @@ import numpy as np
 import mdtraj as md
 from bcc.api import Check
 from bcc.c05 import Snapshot, family_cells
-from bcc.c07 import wc_min, _REG
 from bcc.fixtures import make_topology
 from specs import lattice as L
 
 FAMILIES = ["none"] + L.FAMILIES
 DISTS = ["uniform", "clustered", "voxel-boundaries"]
-POSITIONS = ["inside", "outside"]  # all atoms inside the primary cell / atoms spread over +-3 cells
+# where the atoms sit: inside the rectangular brick [0,ax)x[0,by)x[0,cz) of the (standard-orientation) cell -- for an
+# orthorhombic cell that IS the unit cell; inside the unit-cell parallelepiped (fractional coordinates in [0,1));
+# shifted by random lattice vectors in [-3,3]^3
+POSITIONS = ["brick", "cell", "outside"]
+POS_SUFFIX = {"brick": "", "cell": ":atoms-inside-unit-cell-outside-rectangular-brick", "outside": ":atoms-outside-primary-cell"}
 SF = "Voxels::getNeighbors / getVoxelIndex (voxel range search: bounded-only) and _compute_neighbors"
 
 
@@ -68,7 +71,7 @@ def build(case):
             s -= np.floor(s)
         if pos == "outside":
             s = s + rng.integers(-3, 4, size=(n, 3))
-        xyz[f] = s @ box[f]
+        xyz[f] = s @ (np.diag(np.diag(box[f])) if pos == "brick" else box[f])
     t.xyz = xyz.astype(np.float32)
     return t, w, rng
 
@@ -88,7 +91,12 @@ def distance_matrix(x, bx):
     return D, iu, ju
 
 
-def eval_case(chks, case):
+def _unreduced(bx):
+    a, b, c = bx
+    return max(abs(b[0]) / a[0], abs(c[0]) / a[0], abs(c[1]) / b[1]) > 0.51
+
+
+def eval_case(chks, case, records):
     chk_l, chk_n = chks["list"], chks["neighbors"]
     t, w, rng = build(case)
     family, dist, pos = case["family"], case["dist"], case["pos"]
@@ -96,11 +104,9 @@ def eval_case(chks, case):
     x = t.xyz.astype(np.float64)
     has_cell = family != "none"
     ck = cell_kind(family)
-    suffix = ("" if pos == "inside" else ":atoms-outside-primary-cell", "" if ck != "triclinic" else ":triclinic",
-              "" if dist == "uniform" else ":" + dist)
     for periodic in ((True, False) if has_cell else (True,)):
         use_box = has_cell and periodic
-        if not use_box and pos == "outside":
+        if not use_box and pos != "brick":
             continue  # Euclidean search: nothing new
         mark = margin = None
         Ds = []
@@ -118,13 +124,15 @@ def eval_case(chks, case):
         margin = max(1e-5, 8 * float(L.ulp32(span)))
         extent = w if use_box else max(1e-3, float(np.ptp(x, axis=1).max()))
         cutoffs = [0.01, 0.11 * extent, 0.25 * extent, 0.4999 * extent] if use_box else [0.01, 0.08 * extent, 0.3 * extent]
+        if case.get("cutoff_fracs"):
+            cutoffs = [fr_ * extent for fr_ in case["cutoff_fracs"]]
         if case.get("cutoffs"):
             cutoffs = case["cutoffs"]
         for cutoff in cutoffs:
             cutoff = float(np.float32(cutoff))
             cls = "tiny-cutoff" if cutoff <= 0.0101 else ("cutoff-near-half-width" if use_box and cutoff > 0.45 * extent else "mid-cutoff")
             info = dict(case, periodic=periodic, cutoff=cutoff, kind="case")
-            base_sfx = (":no-cell" if not has_cell else (":periodic=False" if not periodic else ""),) + suffix
+            mode = "no-cell" if not has_cell else ("periodic=False" if not periodic else "periodic")
             # ---------------- compute_neighborlist, every frame
             for f in range(n_frames):
                 D, d32 = Ds[f]
@@ -135,9 +143,10 @@ def eval_case(chks, case):
                 problems = _check_list(nl, D, d32, cutoff, margin, n)
                 if problems:
                     clause, what, obs, exp = problems
-                    chk_l.fail(clause, wc_min("compute_neighborlist", *base_sfx),
-                               f"{what} [family={family} {dist} {pos} n_atoms={n} cutoff={cutoff:.4f} ({cls}) frame={f} periodic={periodic} margin={margin:.1e}]",
-                               dict(info, frame=f), observed=obs, expected=exp)
+                    unred = bool(use_box and ck == "triclinic" and _unreduced(np.asarray(t.unitcell_vectors[f], dtype=np.float64)))
+                    records.append(dict(chk="list", func="compute_neighborlist", clause=clause, mode=mode, pos=pos, cell=ck if use_box else "none", unreduced=unred, dist=dist, cut=cls, n=n,
+                                        what=f"{what} [family={family} {dist} {pos} n_atoms={n} cutoff={cutoff:.4f} ({cls}) frame={f} periodic={periodic} margin={margin:.1e}]",
+                                        input=dict(info, frame=f), observed=obs, expected=exp))
                 else:
                     npairs = int((D[np.triu_indices(n, 1)] < cutoff).sum())
                     chk_l.ok(nontrivial=(family, dist, pos, periodic, cls, npairs > 0), sample={"family": family, "dist": dist, "pos": pos, "n": n, "cutoff": cutoff, "pairs_within": npairs})
@@ -158,9 +167,10 @@ def eval_case(chks, case):
                         break
                 if bad:
                     clause, what, obs, exp = bad
-                    chk_n.fail(clause, wc_min("compute_neighbors", *base_sfx),
-                               f"{what} [family={family} {dist} {pos} n_atoms={n} cutoff={cutoff:.4f} ({cls}) periodic={periodic} query={len(query)} haystack={'all' if hay is None else len(hay)}]",
-                               dict(info, query=query.tolist(), haystack=None if hay is None else hay.tolist()), observed=obs, expected=exp)
+                    unred = bool(use_box and ck == "triclinic" and any(_unreduced(np.asarray(b_, dtype=np.float64)) for b_ in t.unitcell_vectors))
+                    records.append(dict(chk="neighbors", func="compute_neighbors", clause=clause, mode=mode, pos=pos, cell=ck if use_box else "none", unreduced=unred, dist=dist, cut=cls, n=n,
+                                        what=f"{what} [family={family} {dist} {pos} n_atoms={n} cutoff={cutoff:.4f} ({cls}) periodic={periodic} query={len(query)} haystack={'all' if hay is None else len(hay)}]",
+                                        input=dict(info, qh=[query.tolist(), None if hay is None else hay.tolist()]), observed=obs, expected=exp))
                 else:
                     chk_n.ok(nontrivial=(family, dist, pos, periodic, cls, hay is None))
 
@@ -248,10 +258,40 @@ def _check_neighbors(res, D, d32, cutoff, margin, query, hay):
     return None
 
 
+def assign_keys(chks, records):
+    """Order-independent witness classes.  Failures are grouped by (function, clause, mode, position class, cell
+    kind); a group's class gets the suffix ':unreduced' / ':<distribution>' / ':<cutoff class>' only when EVERY
+    failure of the group has that feature; a group is dropped when a coarser group (position class and cell kind
+    both <=, no special suffix) failed too -- it contains the smaller witness.  Witness = fewest atoms."""
+    groups = {}
+    for r in records:
+        groups.setdefault((r["chk"], r["func"], r["clause"], r["mode"], r["pos"], r["cell"]), []).append(r)
+    cell_rank = {"none": 0, "orthorhombic": 0, "triclinic": 1}
+    described = {}
+    for g, rs in groups.items():
+        sfx = []
+        if all(r["unreduced"] for r in rs):
+            sfx.append(":unreduced")
+        if len({r["dist"] for r in rs}) == 1 and rs[0]["dist"] != "uniform":
+            sfx.append(":" + rs[0]["dist"])
+        if len({r["cut"] for r in rs}) == 1 and rs[0]["cut"] != "mid-cutoff":
+            sfx.append(":" + rs[0]["cut"])
+        described[g] = sfx
+    for g, rs in sorted(groups.items(), key=lambda kv: (POSITIONS.index(kv[0][4]), cell_rank[kv[0][5]])):
+        chk_name, func, clause, mode, pos, cell = g
+        subsumed = any(h != g and h[:4] == g[:4] and not described[h] and POSITIONS.index(h[4]) <= POSITIONS.index(pos) and cell_rank[h[5]] <= cell_rank[cell]
+                       for h in groups)
+        if subsumed:
+            continue
+        r = min(rs, key=lambda r: r["n"])
+        wc = func + ("" if mode == "periodic" else ":" + mode) + POS_SUFFIX[pos] + (":triclinic" if cell == "triclinic" else "") + "".join(described[g])
+        chks[chk_name].fail(clause, wc, r["what"] + f" ({len(rs)} failing evaluations in this class)", r["input"], observed=r["observed"], expected=r["expected"])
+
+
 # ------------------------------------------------------------------------------------------------
 
 def _checks(sz):
-    bound = (f"cells [{', '.join(FAMILIES)}] (edges rescaled to <= 6 nm) x distributions {DISTS} x positions [all atoms inside the primary cell, atoms shifted by random lattice vectors in [-3,3]^3] "
+    bound = (f"cells [{', '.join(FAMILIES)}] (edges rescaled to <= 6 nm) x distributions {DISTS} x positions [inside the rectangular brick [0,ax)x[0,by)x[0,cz), inside the unit-cell parallelepiped, shifted by random lattice vectors in [-3,3]^3] "
              f"x atom counts {sz['n_atoms']} x {sz['seeds']} seed(s) x {sz['n_frames']} frames x periodic in (True,False); cutoffs [0.01, 0.11 w, 0.25 w, 0.4999 w] (w = smallest perpendicular cell width; "
              "without a cell 0.01, 0.08, 0.3 of the extent)")
     return {
@@ -269,38 +309,66 @@ def _cases(tier, seed):
     if tier == "quick":
         ns, seeds, fr = [1, 2, 7, 40, 150], [seed], 2
     else:
-        ns, seeds, fr = [1, 2, 3, 11, 60, 150, 400], [seed * 1000 + 100 + k for k in range(3)], 2
+        ns, seeds, fr = [1, 2, 3, 11, 60, 150, 400], [seed * 1000 + 100 + k for k in range(2)], 2
     cases = []
-    for pos in POSITIONS:  # inside first: a failure there is the smaller witness
+    for pos in POSITIONS:
         for s in seeds:
             for fam in FAMILIES:
-                if fam == "none" and pos == "outside":
+                if pos != "brick" and fam in ("none",):
                     continue
+                if pos == "cell" and fam in ("cubic", "ortho"):
+                    continue  # identical to the brick
                 for dist in DISTS:
                     for n in ns:
-                        if tier == "quick" and n == 150 and dist != "uniform" and fam not in ("ortho", "triclinic", "none"):
+                        if n >= 150 and dist != "uniform" and (tier == "quick" or n == 400) and fam not in ("ortho", "triclinic", "none"):
+                            continue
+                        if n == 400 and pos == "cell":
                             continue
                         cases.append(dict(family=fam, dist=dist, pos=pos, seed=s, n_atoms=n, n_frames=fr))
-    return cases, dict(n_atoms=ns, seeds=len(seeds), n_frames=fr)
+    # targeted: skewed cells, many atoms inside the brick, cutoff at half the smallest width (few voxels per axis)
+    for k in range(8 if tier == "quick" else 30):
+        for fam in ("triclinic", "triclinic-unreduced", "varying", "mixed-ortho-tric"):
+            cases.append(dict(family=fam, dist="uniform", pos="brick", seed=seed * 1000 + 500 + k, n_atoms=120, n_frames=fr, cutoff_fracs=[0.4999]))
+    return cases, dict(n_atoms=ns + [120], seeds=len(seeds), n_frames=fr)
 
 
 def run(tier, seed, hint):
-    _REG.clear()
     cases, sz = _cases(tier, seed)
     chks = _checks(sz)
-    cases.sort(key=lambda c: (POSITIONS.index(c["pos"]), c["n_atoms"]))
-    for case in cases:
-        eval_case(chks, case)
+    records = []
+    if tier == "quick":
+        for case in cases:
+            eval_case(chks, case, records)
+    else:
+        from concurrent.futures import ProcessPoolExecutor
+
+        with ProcessPoolExecutor(4) as ex:
+            for ok_counts, recs in ex.map(_worker, [cases[i::16] for i in range(16)]):
+                records += recs
+                for name, (ev, distinct, samples) in ok_counts.items():
+                    chks[name].evaluations += ev
+                    chks[name]._distinct |= distinct
+                    chks[name].samples = (chks[name].samples + samples)[:3]
+    assign_keys(chks, records)
     return list(chks.values())
 
 
+def _worker(cases):
+    chks = _checks(dict(n_atoms=[], seeds=0, n_frames=0))
+    records = []
+    for case in cases:
+        eval_case(chks, case, records)
+    return {k: (c.evaluations, c._distinct, c.samples) for k, c in chks.items()}, records
+
+
 def replay(payload):
-    _REG.clear()
     inp = payload.get("input") or payload.get("failing_input")
     chks = _checks(dict(n_atoms=[inp["n_atoms"]], seeds=1, n_frames=inp["n_frames"]))
     case = {k: inp[k] for k in ("family", "dist", "pos", "seed", "n_atoms", "n_frames")}
     if "cutoff" in inp:
         case["cutoffs"] = [inp["cutoff"]]
-    eval_case(chks, case)
+    records = []
+    eval_case(chks, case, records)
+    assign_keys(chks, records)
     fails = [f for c in chks.values() for f in c.failures]
     return {"reproduced": bool(fails), "failures": fails}
